@@ -202,6 +202,35 @@ fn is_str(v: &Value<'_>) -> Option<String> {
     }
 }
 
+/// several documents per Coq shard (loading the libraries costs more than evaluating a case)
+struct Group {
+    defs: Vec<String>,
+    cases: Vec<(String, serde_json::Value)>,
+    docs: usize,
+    limit: usize,
+}
+impl Group {
+    fn new(limit: usize) -> Self {
+        Group { defs: vec![], cases: vec![], docs: 0, limit }
+    }
+    fn add(&mut self, cw: &mut CaseWriter, defs: Vec<String>, cases: Vec<(String, serde_json::Value)>) {
+        self.defs.extend(defs);
+        self.cases.extend(cases);
+        self.docs += 1;
+        if self.docs >= self.limit {
+            self.flush(cw);
+        }
+    }
+    fn flush(&mut self, cw: &mut CaseWriter) {
+        if !self.cases.is_empty() {
+            cw.push_group(&self.defs, std::mem::take(&mut self.cases));
+        }
+        self.defs.clear();
+        self.cases.clear();
+        self.docs = 0;
+    }
+}
+
 // ------------------------------------------------------------------ C40: string migration
 const MKEYS: [&str; 5] = ["a", "b", "s", "\u{e9}", "k1"];
 
@@ -367,7 +396,7 @@ fn load_migrating(bytes: &[u8], enc: TextEncoding) -> Result<Automerge, String> 
     Automerge::load_with_options(bytes, LoadOptions::new().text_encoding(enc).migrate_strings(StringMigration::ConvertToText)).map_err(|e| format!("{}", e))
 }
 
-fn mig_case(rng: &mut Rng, rep: &mut Report, cw: &mut CaseWriter, pi: usize, enc: TextEncoding, thorough: bool) {
+fn mig_case(rng: &mut Rng, rep: &mut Report, cw: &mut CaseWriter, grp: &mut Group, pi: usize, enc: TextEncoding, thorough: bool) {
     let no_strings = rng.chance(1, 10);
     let d = mig_document(rng, enc, thorough, no_strings);
     let replay = json!({"stream": "mig", "program": pi, "encoding": enc_name(enc), "log": d.log, "doc_hex": hex(&d.bytes)});
@@ -552,13 +581,13 @@ fn mig_case(rng: &mut Rng, rep: &mut Report, cw: &mut CaseWriter, pi: usize, enc
     let mut defs = vec![];
     let mut names = vec![];
     for (i, c) in ch_plain.iter().enumerate() {
-        defs.push(format!("Definition ch{} : change := {}.", i, coq_change_small(c, i)));
-        names.push(format!("ch{}", i));
+        defs.push(format!("Definition m{}_ch{} : change := {}.", pi, i, coq_change_small(c, i)));
+        names.push(format!("m{}_ch{}", pi, i));
     }
     let added_ops = added.first().map(|c| coq_ops_of(c)).unwrap_or_else(|| "[]".into());
     let actor = added.first().map(|c| c.actor_id().clone()).unwrap_or_else(|| mig.get_actor().clone());
     let term = format!("chk_migrate {} {} {} {} {}", coq_enc(enc), coq_list(&names), coq_actor(&actor), added_ops, coq_obs(&after));
-    cw.push_group(&defs, vec![(term, json!({"kind": "migrate", "props": ["C40"], "program": pi, "log": d.log, "doc_hex": hex(&d.bytes)}))]);
+    grp.add(cw, defs, vec![(term, json!({"kind": "migrate", "props": ["C40"], "program": pi, "log": d.log, "doc_hex": hex(&d.bytes)}))]);
     rep.model_cases += 1;
 }
 
@@ -571,11 +600,13 @@ pub fn run(rng: &mut Rng, tier: &str, out: &str) -> Report {
     // ---- C40
     {
         let mut r = rng.fork();
-        let n = if thorough { 400 } else { 80 };
+        let n = if thorough { 400 } else { 64 };
+        let mut grp = Group::new(if thorough { 12 } else { 6 });
         for pi in 0..n {
             let enc = encs[pi % 4];
-            mig_case(&mut r, &mut rep, &mut cw, pi, enc, thorough);
+            mig_case(&mut r, &mut rep, &mut cw, &mut grp, pi, enc, thorough);
         }
+        grp.flush(&mut cw);
     }
     cw.finish();
     rep
